@@ -147,8 +147,10 @@ class PackFile:
 
 def unify_path(path: str) -> str:
     """Convert paths to a unique form."""
-    path = os.path.normpath(path).casefold().replace('\\', '/')
-    if '../' in path:
+    # Convert slashes first, so normpath() also collapses "a\\..\\b" on POSIX.
+    path = os.path.normpath(path.replace('\\', '/')).casefold().replace('\\', '/')
+    # After normalisation, parent references can only remain at the start.
+    if path == '..' or path.startswith('../'):
         raise ValueError('Path tried to escape root!')
     return path.lstrip('/')
 
